@@ -52,6 +52,14 @@ CHECKS["C12"] = {
     "note": TRUST,
 }
 
+CHECKS["C13"] = {
+    "technique": "deterministic simulation of process lifetimes: seeded call histories in a warm executor compared call by call with a fresh twin process on the same disk, under cache-capacity, listing-order and hash-seed knobs; bounded sweep of ordered call pairs; cross-hash-seed replay",
+    "category": "exploration",
+    "text": "Every read-only call of an alphabet covering all cached entry points (Sid from string / uri / query / fields / path+config, path(config), unfold_search with every flag value, simple_typing, sid_to_dict(s), path_to_dict, get_path_config, get_finder, match, derived Sid calls, find / find_one / exists / children / siblings on three finders) in keyword and positional spellings is executed after seeded histories (<= 50 calls, store mutations, partially consumed generators, restarts, floods of distinct calls, capacity in {4096,64,8,2,1}) and must give the observation a fresh process (pristine fork, default capacity, same disk and listing order) gives; spellings of one call must agree; every clean run is replayed under PYTHONHASHSEED=0 and the per-call observation logs must match across the 8 hash seeds; every ordered pair of the base alphabet is run in a fresh epoch (bounded sweep).",
+    "ref": "DESIGN.md 5.1",
+    "note": TRUST + " resolva's internal lru_cache(128) cannot be resized; its eviction is reached by floods of > 128 distinct strings (probe counted).",
+}
+
 NOT_APPLICABLE = {
     "C01": "pure function of one string and the static template table; no history, storage, entropy or fault in it (cache effects on it are C13/C14's subject); deciding it is input generation, not simulation",
     "C02": "pure function of one Sid (constructors are deterministic re-encodings); nothing for a schedule or fault to act on",
